@@ -28,5 +28,59 @@ theorem default_passes_match :
     Generated.optimizerPasses.map (fun (_, f, po, ao, fp, pr) => (f, po, ao, fp, pr)) =
       Opt.defaultPasses.map (fun p => (passFunc p.name, p.postorder, p.atomicOnly, false, false)) := by decide
 
+/-- The constructor of `Expr` (or the part of the model) that mirrors each `Expression` class of the
+    library, with the data fields it carries.  A class that is added to, removed from or reshaped in
+    the source changes the regenerated table and breaks `expression_classes_covered`. -/
+def modelledAs : List (String × List String × String) :=
+  [("ASCIIRule", ["name", "expression", "modifier", "doc", "child_is_non_atomic"], "Expr.rule (kind builtin; body = the RegexExpression of the table)"),
+   ("Any", ["name", "expression", "modifier", "doc", "child_is_non_atomic"], "Expr.rule \"ANY\" SILENT _ .anyB"),
+   ("BuiltInRule", ["name", "expression", "modifier", "doc", "child_is_non_atomic"], "Rule (kind builtin)"),
+   ("CIString", ["value"], "Expr.ci"),
+   ("Choice", ["expressions"], "Expr.choice"),
+   ("Drop", [], "Expr.drop"),
+   ("EOI", ["name", "expression", "modifier", "doc", "child_is_non_atomic"], "Expr.rule \"EOI\" 0 _ .eoiB"),
+   ("GrammarRule", ["name", "expression", "modifier", "doc", "child_is_non_atomic"], "Rule (kind grammar)"),
+   ("Group", ["expression"], "Expr.group"),
+   ("Identifier", ["value"], "Expr.ident"),
+   ("NegativePredicate", ["expression"], "Expr.notP"),
+   ("OptimizedChoice", ["choices"], "Expr.optChoice _ false"),
+   ("OptimizedChoiceRepeat", ["choices"], "Expr.optChoice _ true"),
+   ("Optional", ["expression"], "Expr.opt"),
+   ("Peek", [], "Expr.peek"),
+   ("PeekAll", [], "Expr.peekAll"),
+   ("PeekSlice", ["start", "stop"], "Expr.peekSlice"),
+   ("Pop", [], "Expr.pop"),
+   ("PopAll", [], "Expr.popAll"),
+   ("PositivePredicate", ["expression"], "Expr.andP"),
+   ("Push", ["expression"], "Expr.push"),
+   ("PushLiteral", ["value"], "Expr.pushLit"),
+   ("Range", ["start", "stop"], "Expr.range"),
+   ("RegexExpression", ["pattern", "regex"], "Expr.uprop (accepted set swept from the regex engine per run)"),
+   ("Repeat", ["expression"], "Expr.rep"),
+   ("RepeatExact", ["expression", "number"], "Expr.repExact"),
+   ("RepeatMax", ["expression", "number"], "Expr.repMax"),
+   ("RepeatMin", ["expression", "number"], "Expr.repMin"),
+   ("RepeatMinMax", ["expression", "min", "max"], "Expr.repMinMax"),
+   ("RepeatOnce", ["expression"], "Expr.rep1"),
+   ("Rule", ["name", "expression", "modifier", "doc", "child_is_non_atomic"], "Rule / Expr.rule"),
+   ("SOI", ["name", "expression", "modifier", "doc", "child_is_non_atomic"], "Expr.rule \"SOI\" SILENT _ .soiB"),
+   ("Sequence", ["expressions"], "Expr.seq"),
+   ("SkipUntil", ["subs"], "Expr.skipUntil"),
+   ("String", ["value"], "Expr.str"),
+   ("Terminal", ["tag"], "(abstract base of the terminals)"),
+   ("UnicodePropertyRule", [], "Expr.rule (kind builtin; body .uprop)"),
+   ("_Any", ["tag"], "Expr.anyB"),
+   ("_EOI", ["tag"], "Expr.eoiB"),
+   ("_SOI", ["tag"], "Expr.soiB")]
+
+/-- every `Expression` class found in the source, with exactly these public fields, has a counterpart
+    in the model (and the model knows no class the source does not have) -/
+theorem expression_classes_covered :
+    Generated.expressionClasses = modelledAs.map (fun (n, fs, _) => (n, fs)) := by decide
+
+/-- `Parser.BUILTIN`'s special rules: ANY and SOI are silent, EOI is a normal rule, bodies as modelled -/
+theorem special_builtins_match :
+    Generated.specialBuiltins = [("ANY", SILENT, "_Any"), ("SOI", SILENT, "_SOI"), ("EOI", 0, "_EOI")] := by decide
+
 end Tables
 end Pest
